@@ -409,4 +409,56 @@ class GPRuns(Facet):
             w.cleanup()
 
 
-FACETS = [ExhaustiveWeights(), Compositions(), Initializers(), GPRuns()]
+class SelectionUnderParallelEvaluator(Facet):
+    """Selection-type steps (elitism, tournament and their sequence / parallel compositions) applied
+    with a ParallelEvaluator to a population that already carries its fitness (as every population
+    after generation 0 does): asked for k they yield k, whichever evaluator is in use."""
+
+    name = "selection_steps_with_parallel_evaluator"
+    fuzz_runs = 0  # cases may spawn worker processes: too slow for a coverage-guided campaign
+
+    def budget(self, tier):
+        return (120, 2) if tier == "quick" else (600, 8)
+
+    def strategy(self, tier):
+        sel = st.one_of(st.just(["elitism"]), st.builds(lambda t, r: ["tournament", t, r], st.integers(1, 4), st.booleans()), st.just(["identity"]))
+        comp = st.one_of(
+            sel,
+            st.builds(lambda a, b: ["seq", [a, b]], sel, sel),
+            st.builds(lambda xs, ws: ["par", xs, ws[: len(xs)]], st.lists(sel, min_size=1, max_size=3), st.lists(st.integers(1, 9), min_size=3, max_size=3)),
+        )
+        return st.builds(lambda step, n, dk, form, pre: {"step": step, "size": n, "k": max(1, n - dk), "form": form, "pre_evaluated": pre},
+                         comp, st.integers(2, 12), st.sampled_from([0, 0, 1, 3]), st.sampled_from(["list", "population", "iterator"]), st.sampled_from([True, True, False]))
+
+    def run(self, case, rec):
+        from geneticengine.evaluation.parallel import ParallelEvaluator
+        from geneticengine.evaluation.sequential import SequentialEvaluator
+        from geneticengine.evaluation.tracker import SingleObjectiveProgressTracker
+        from geneticengine.problems import SingleObjectiveProblem
+        from geneticengine.random.sources import NativeRandomSource
+        from geneticengine.solutions.individual import Individual
+        from vk.props.c16 import TableRep
+
+        rep = TableRep()
+        problem = SingleObjectiveProblem(lambda p: float(p[1]))
+        pop = [Individual((i, (i * 7) % 5), rep) for i in range(case["size"])]
+        if case["pre_evaluated"]:
+            SequentialEvaluator().evaluate(problem, pop)
+        ev = ParallelEvaluator()
+        rec.label("pre-evaluated" if case["pre_evaluated"] else "not-evaluated-yet", *["has:" + x for x in sorted(kinds_in(case["step"]))])
+        rec.sample({"step": step_str(case["step"]), "size": case["size"], "k": case["k"], "form": case["form"]}, limit=2)
+        try:
+            n = len(list(build_step(case["step"]).apply(problem, ev, rep, NativeRandomSource(case["size"]), as_form(pop, case["form"], SingleObjectiveProgressTracker(problem, ev)), case["k"], 1)))
+        except Exception as e:  # noqa: BLE001
+            rec.fail(f"C15/parallel-evaluator/{culprit(case['step'])}/raised-{type(e).__name__}", f"{step_str(case['step'])} asked for {case['k']} of {case['size']} with a ParallelEvaluator raised {e!r}")
+            return
+        if case["pre_evaluated"]:
+            rec.nontrivial((step_str(case["step"]), case["size"], case["k"], case["form"]))
+        if n != case["k"]:
+            rec.fail(
+                f"C15/parallel-evaluator/{culprit(case['step'])}/{'over' if n > case['k'] else 'under'}",
+                f"{step_str(case['step'])} asked for {case['k']} of a population of {case['size']} ({'already evaluated' if case['pre_evaluated'] else 'not evaluated yet'}, {case['form']}) yielded {n} with a ParallelEvaluator",
+            )
+
+
+FACETS = [ExhaustiveWeights(), Compositions(), Initializers(), GPRuns(), SelectionUnderParallelEvaluator()]
